@@ -15,6 +15,8 @@ the code as it stands in the working tree):
  T6  a comprehension / generator expression with a single `for` and no `if` becomes
      VC_map(lambda target: element, iterable, kind): identical on concrete iterables, an abstract
      mapped sequence on abstract lists.
+ T7  `"<literal>" % x` (and `fmt_str % x`) becomes VC_strmod(fmt, x): identical on concrete x; "%x" / "%0Nx" of a
+     symbolic int yields a lazy hexadecimal text that unhexlify turns into the big-endian bytes.
  T5  every `for`/`while` statement is duplicated under a run-time test: when the active
      proof supplies a loop contract for (module, function, ordinal) the *cut form* runs
      (prove invariant on entry; havoc the assigned variables; assume the invariant; fork:
@@ -283,6 +285,15 @@ class Transformer(ast.NodeTransformer):
 
     def visit_GeneratorExp(self, node):
         return self._comp(node, "gen")
+
+    # -- T7 -----------------------------------------------------------------------------
+    def visit_BinOp(self, node):
+        self.generic_visit(node)
+        if isinstance(node.op, ast.Mod) and (
+                (isinstance(node.left, ast.Constant) and isinstance(node.left.value, str)) or
+                isinstance(node.left, ast.Name) and node.left.id.endswith("fmt_str")):
+            return ast.copy_location(_call("VC_strmod", node.left, node.right), node)
+        return node
 
     # -- T4 -----------------------------------------------------------------------------
     def visit_Call(self, node):
@@ -626,6 +637,7 @@ class Loader:
         g["VC_loop"] = vc_loop
         from . import abscoll
         g["VC_map"] = abscoll.vc_map
+        g["VC_strmod"] = models.m_strmod
         self.modules[fullname] = mod
         self.sources[fullname] = (path, hashlib.sha256(src).hexdigest(), tr.loops)
         try:
